@@ -55,6 +55,57 @@ Theorem C13_not_listed_after_end :
 Proof. exact not_listed_after_end. Qed.
 Print Assumptions C13_not_listed_after_end.
 
+(* "for any reason": whatever end reaches an accepted connection - client close, network loss,
+   expiry, cancellation, eviction, or the relay's own shutdown (close(closed): every writePump
+   returns and closes its socket) - as the last event of any history, the connection holds nothing
+   once its goroutines have taken their next steps.  (The hypothesis `ended` of
+   C13_released_after_end_partial is thereby met by each reason.) *)
+Theorem C13_any_end_releases :
+  forall h id r c, (forall x, r <> Refused x) ->
+    lookup N.eqb id (Resources.run (h ++ [EEnd id r])) = Some c -> joined c = true ->
+    held (settle c) = [].
+Proof. exact any_end_releases. Qed.
+Print Assumptions C13_any_end_releases.
+
+Example C13_any_end_releases_nonvacuous :
+  forallb (fun r =>
+    match lookup N.eqb 2%N (Resources.run ([EConnect 1 Join 7 true; EConnect 2 Join 7 true; EWriter 2] ++ [EEnd 2%N r]))%N with
+    | Some c => joined c && negb (Nat.eqb (length (held c)) 0) && Nat.eqb (length (held (settle c))) 0
+    | None => false
+    end) [ClientClose; NetLoss; Expiry; Cancel; Evict; Shutdown] = true.
+Proof. vm_compute. reflexivity. Qed.
+
+(* the idle baseline: when no connection is live (all ended, e.g. after a shutdown reached every
+   one of them), nothing at all is held except the sockets F08a leaves behind *)
+Theorem C13_idle_baseline :
+  forall h k, live (Resources.run h) = 0%N -> k <> Sock ->
+    count_res k (settle_all (Resources.run h)) = 0%N.
+Proof. exact idle_baseline. Qed.
+Print Assumptions C13_idle_baseline.
+
+Example C13_idle_baseline_nonvacuous :
+  let h := [EConnect 1 Join 7 true; EConnect 2 Join 8 false; EConnect 3 (Refuse NoCode) 8 true;
+            EEnd 1 Shutdown; EEnd 2 Shutdown]%N in
+  live (Resources.run h) = 0%N /\ count_res Watcher (Resources.run h) = 2%N /\
+  count_res Watcher (settle_all (Resources.run h)) = 0%N /\ count_res Sock (settle_all (Resources.run h)) = 1%N.
+Proof. vm_compute. repeat split. Qed.
+
+(* no ghosts: in EVERY reachable state (no settling needed) whoever the status report lists, and
+   whoever has a deny channel recorded, is an accepted connection whose reader is still running -
+   membership cannot outlive, or be installed after, the reader that is the only one to undo it *)
+Theorem C13_listed_has_reader :
+  forall h id c, lookup N.eqb id (Resources.run h) = Some c ->
+    h_member c = true \/ h_chan c = true -> joined c = true /\ h_reader c = true.
+Proof. exact listed_has_reader. Qed.
+Print Assumptions C13_listed_has_reader.
+
+Example C13_listed_has_reader_nonvacuous :
+  match lookup N.eqb 1%N (Resources.run [EConnect 1 Join 7 true; EEnd 1 Expiry; EWatcher 1; EWriter 1])%N with
+  | Some c => h_member c = true /\ h_writer c = false /\ h_reader c = true
+  | None => False
+  end.
+Proof. vm_compute. repeat split. Qed.
+
 (* shutdown: for ANY list of loop shapes accepted by the checker (the list regenerated from the
    source is Gen/LoopGen.loops, its obligation Gen/LoopGen.loops_ok), taking the shutdown case
    ends the loop - at that iteration at the latest *)
@@ -90,6 +141,30 @@ Theorem C13_spinner_rejected :
     leaves (tm c) = false -> stops_on_close ls = false.
 Proof. exact spinner_rejected. Qed.
 Print Assumptions C13_spinner_rejected.
+
+(* "no worker is left spinning", the other half: with nothing ready a checked loop sleeps in its
+   select (it has no default arm), it does not poll *)
+Theorem C13_idle_blocks : forall l, loop_ok l = true -> blocks l [] = true.
+Proof. exact idle_blocks. Qed.
+Print Assumptions C13_idle_blocks.
+
+(* "the relay's services stop" is NOT true of a loop that has no case leaving it: whatever its
+   select picks it keeps running (parked in the select when nothing is ready). Today this is the
+   shape of Hub.run - it cannot see `closed` and is listed as DEAF in Gen/LoopGen.v - so the hub
+   goroutine outlives a shutdown request (blocked, not spinning); the claim C13_loops_stop makes is
+   for the loops that have a shutdown case. *)
+Theorem C13_loop_without_exit_never_stops :
+  forall l, forallb (fun c => negb (leaves (tm c))) (cases l) = true ->
+  forall sched, LoopIR.run l sched = Running.
+Proof. exact never_exits. Qed.
+Print Assumptions C13_loop_without_exit_never_stops.
+
+Example C13_hub_loop_shape_never_stops :
+  let hub := mkloop "internal/crossbar/crossbar.go:run" false false
+               [mkcase "h.register" Fall; mkcase "h.unregister" Fall; mkcase "h.broadcast" Fall] in
+  loop_ok hub = true /\ listens hub = false /\ blocks hub [] = true /\
+  LoopIR.run hub [0; 1; 2; 2; 1; 0]%nat = Running.
+Proof. vm_compute. repeat split. Qed.
 
 (* non-vacuity: five connections ending in the five ways plus two refusals and one still live,
    goroutine steps interleaved; a checked loop list with a shutdown case; the spinning shape *)
